@@ -696,29 +696,28 @@ func (c *Ctx) ruleRetainedWildcardParent(id string) {
 	pkg := "topics"
 	isNode := func(t types.Type) bool { return isNamed(derefT(t), pkg, "Node") }
 	enums := c.subtreeEnumerations(pkg)
+	// the recursive routine behind Store.Match: a call cycle (match calling itself, or match → matchLevel → match)
+	// whose members together read the filter level by level and test for '#'
 	var match *ssa.Function
-	for _, f := range c.P.ModFuncs() {
-		if f.Parent() != nil || f.Package() == nil || f.Package().Pkg.Path() != c.P.Rel(pkg) || f.Signature.Recv() == nil || !isNode(f.Signature.Recv().Type()) {
-			continue
-		}
-		rec, guided, wild := false, false, false
-		for _, cl := range core.CallsIn(f) {
-			if cl.Static == f {
-				rec = true
+	if entry := c.implOf(ru, "topics", "Store", "Match"); entry != nil {
+		head, members := c.trieWalk(pkg, entry)
+		guided, wild := false, false
+		for g := range members {
+			for _, cl := range core.CallsIn(g) {
+				if cl.Obj != nil && cl.Obj.Name() == "Next" && cl.Obj.Pkg() != nil && strings.HasSuffix(cl.Obj.Pkg().Path(), "/format") {
+					guided = true
+				}
 			}
-			if cl.Obj != nil && cl.Obj.Name() == "Next" && cl.Obj.Pkg() != nil && strings.HasSuffix(cl.Obj.Pkg().Path(), "/format") {
-				guided = true
-			}
-		}
-		for _, b := range f.Blocks {
-			for _, in := range b.Instrs {
-				if bo, ok := in.(*ssa.BinOp); ok && isWildcardTest(bo) {
-					wild = true
+			for _, b := range g.Blocks {
+				for _, in := range b.Instrs {
+					if bo, ok := in.(*ssa.BinOp); ok && isWildcardTest(bo) {
+						wild = true
+					}
 				}
 			}
 		}
-		if rec && guided && wild {
-			match = f
+		if head != nil && head.Signature.Recv() != nil && isNode(head.Signature.Recv().Type()) && guided && wild {
+			match = head
 		}
 	}
 	if !ru.Anchor(match != nil, "the topic-guided recursive match of topics.Node that tests for '#'") || !ru.Anchor(len(enums) > 0, "a subtree enumeration of topics.Node") {
@@ -751,7 +750,7 @@ func (c *Ctx) ruleRetainedWildcardParent(id string) {
 		}
 		return rooted(g, 3)
 	}
-	paths, err := core.EnumPaths(match, core.PathOpts{})
+	paths, err := c.pathsInlinedPkg(match, core.PathOpts{}, func(g *ssa.Function) bool { return enums[g] })
 	if err != nil {
 		ru.Undecided("'#' arm of "+c.fname(match), c.whereF(match), err.Error())
 		return
